@@ -104,6 +104,20 @@ CHECKS = {
                      "(hundredths FF?, deviation 8000?, status FF?) the solver proves civil fields, microseconds = hundredths*10000|0, offset = -deviation, naive iff unspecified. Complete over the domain.",
                 note="Trusted: z3, the datetime/timezone model (CPython's validation rules; every path replayed against the real datetime), construct bit-field model.",
                 technique="symbolic execution of the real construct DateTime grammar on 12 free octets; integer arithmetic decided by z3 per path"),
+    "C12": dict(level="model_checking", design="§4 C12",
+                text="One-step lemma covering every history: the decoder table is replaced by stubs whose accept/reject (and rejecting exception type) for this payload are free Booleans, the remembered "
+                     "index is free in {None,0..6}; the real decode_message_payload and decode_message (DLMS message, HDLC frame, P1 readout) run on it and all 2040 paths per entry point are compared "
+                     "with the statement (first acceptor in cyclic order from the remembered one; None iff nobody accepts; remembered decoder updated / unchanged). Own-decoder claim: all real decoders "
+                     "run through a fresh AutoDecoder and one remembering the own decoder on documented lists (frame and body) with a free register; the own decoder is selected and the values equal the reference.",
+                note="Trusted: z3, symx proxies (every path replayed on the pristine AutoDecoder with concrete stubs / real decoders), spec/cosem_ref.py. The lemma abstracts decoders to accept/reject.",
+                technique="one-step symbolic lemma on the real selection loop with stub decoders (free Booleans) + symbolic execution of all real decoders through AutoDecoder (z3 per path)"),
+    "C15": dict(level="model_checking", design="§4 C15",
+                text="All seven real decoders are executed symbolically - each as if it were the remembered one - on genuine messages of every meter (frame and body) and a P1 block with a free 1-octet "
+                     "window at every offset (2 octets over headers in thorough: all 256^w values at once), on every truncation, on positional lists re-cut to every item count, and on short fully free "
+                     "binary and ASCII strings; a decoder returning anything but a dict, raising anything but ConstructError/ValueError, or not finishing within the guard is the violation, replayed "
+                     "through AutoDecoder on the pristine code.",
+                note="Trusted: z3, symx proxies and construct/regex/float/datetime models (per-path replay of every decoder's outcome on the pristine code). Termination by wall-clock guard (12 s symbolic, 5 s concrete).",
+                technique="bounded symbolic execution of the real decoders on free octet windows of genuine messages; escaping exception or non-termination on a feasible path = violation"),
 }
 
 NOT_YET = {}
